@@ -4,6 +4,8 @@ import OW.Proofs.Lag
 Hot-start continuity of the `Lag` kernel: the delay buffer is the state row, and lagging `a ++ b` from a buffer equals
 lagging `a`, then lagging `b` from the buffer left by `a`. Pure list theory (core Lean only).
 -/
+set_option linter.unusedSimpArgs false
+set_option linter.unusedSectionVars false
 namespace OW.Proofs.Lag
 open OW OW.Kernels.Lag
 
